@@ -4,6 +4,7 @@ package triep_test
 
 import (
 	"bytes"
+	"errors"
 	"fmt"
 	"strings"
 	"testing"
@@ -88,6 +89,8 @@ func (ch *chain) syncChildRoot(name []byte) {
 	}
 }
 
+var errStopChain = errors.New("stop chain")
+
 // applyOp applies one random operation to the trie and to the model.
 func (ch *chain) applyOp() error {
 	r := ch.c.R
@@ -128,6 +131,13 @@ func (ch *chain) applyOp() error {
 		}
 		name := vcommon.Pick(r, ch.ckeys)
 		cm := ch.childs[string(name)]
+		if dn, croot, bad := danglingChild(ch.cur, ch.ckeys); bad {
+			// C04-K1 already struck inside this block: the next child operation would
+			// dereference the missing child trie (PutIntoChild panics on it).
+			ch.c.Known("C04-K1", fmt.Sprintf("in-memory state is ill-formed: main trie stores child root %s for child %s but the child trie object is gone (child tries with equal content alias each other)", hx(croot), hx(dn)),
+				ch.witness(map[string]any{"child": hx(dn), "child_root": hx(croot)}))
+			return errStopChain
+		}
 		switch y := r.Intn(10); {
 		case y < 7:
 			v := genValue(r, ch.prof)
@@ -432,7 +442,9 @@ func shapeOf0(t *inmemory.InMemoryTrie, root common.Hash) *shape {
 func runChain(c *vcommon.Case, ch *chain, steps int, opsPerStep func() int) {
 	for step := 0; step < steps; step++ {
 		for i, n := 0, opsPerStep(); i < n; i++ {
-			if err := ch.applyOp(); err != nil {
+			if err := ch.applyOp(); err == errStopChain {
+				return
+			} else if err != nil {
 				c.Inconclusive("trie operation failed (not a C04 matter): " + err.Error())
 				return
 			}
@@ -664,6 +676,13 @@ func runStateChain(c *vcommon.Case) {
 				}
 				name := vcommon.Pick(c.R, cnames)
 				v := genValue(c.R, prof)
+				if it, ok := ts.Trie().(*inmemory.InMemoryTrie); ok {
+					if dn, croot, bad := danglingChild(it, cnames); bad {
+						c.Known("C04-K1", fmt.Sprintf("in-memory state is ill-formed: main trie stores child root %s for child %s but the child trie object is gone (child tries with equal content alias each other)", hx(croot), hx(dn)),
+							wit(map[string]any{"child": hx(dn), "child_root": hx(croot)}))
+						return
+					}
+				}
 				logf("child %s put %s %s", hx(name), hx(k), hx(v))
 				err = ts.SetChildStorage(name, k, v)
 				if childs[string(name)] == nil {
